@@ -13,6 +13,13 @@
 //!   expr <erase> <hex src>      -> canonical tree of ast::Expr::parse (the body of Expression mode)
 //!   suite <erase> <hex src>     -> `[stmt …]` of ast::Suite::parse
 //!   debug <mode> <hex src>      -> the raw `{:?}` text (diagnostics only)
+//!   lexspans <mode e|m> <hex src>
+//!        -> (C02) the byte spans `a-b,c-d,…` (`-` when there is none) of the tokens the real lexer hands to the
+//!           grammar for `src`, without the mode start marker, the final `Newline`s and `EndOfFile`, or `(err <offset>)`
+//!   rexpr <hex src> <spans>
+//!        -> (C02) canonical tree WITH ranges, `ctx` fields removed, of the body of the Expression-mode parse;
+//!           `stale-tokens` when `<spans>` is not what `lexspans e` answers now.  `<spans>` is the attachment for the
+//!           Lean model (`drv_c02`), which computes the same tree from the source's tokens and these spans.
 //!
 //! Builds in feature sets `default` and `all-ranges` (with `all-ranges` every node kind carries `@a..b`).
 use pvh::*;
@@ -48,6 +55,40 @@ fn err_line(e: &ParseError) -> String {
         k
     };
     format!("(err {} {})", kind, u32::from(e.offset))
+}
+
+/// byte spans of the tokens the grammar sees (C02 `lexspans`)
+fn token_spans(src: &str, mode: Mode) -> Result<String, String> {
+    use rustpython_parser::Tok;
+    let mut v: Vec<(Tok, u32, u32)> = Vec::new();
+    for item in rustpython_parser::lexer::lex(src, mode) {
+        match item {
+            Ok((t, r)) => v.push((t, u32::from(r.start()), u32::from(r.end()))),
+            Err(e) => return Err(format!("(err {})", u32::from(e.location))),
+        }
+    }
+    v.retain(|(t, _, _)| {
+        !matches!(
+            t,
+            Tok::StartModule | Tok::StartInteractive | Tok::StartExpression | Tok::EndOfFile
+        )
+    });
+    while matches!(v.last(), Some((Tok::Newline, _, _))) {
+        v.pop();
+    }
+    if v.is_empty() {
+        return Ok("-".into());
+    }
+    Ok(v.iter()
+        .map(|(_, a, b)| format!("{}-{}", a, b))
+        .collect::<Vec<_>>()
+        .join(","))
+}
+
+fn strip_ctx(s: String) -> String {
+    s.replace(" (ctx Load)", "")
+        .replace(" (ctx Store)", "")
+        .replace(" (ctx Del)", "")
 }
 
 fn fnv(s: &str) -> u64 {
@@ -128,6 +169,25 @@ fn handle(ws: &[&str]) -> String {
             let Some(src) = unhex_str(src) else { return bad() };
             match ast::Suite::parse(&src, "<pvh>") {
                 Ok(t) => astdump::dump(&t, *erase == "1"),
+                Err(e) => err_line(&e),
+            }
+        }
+        ["lexspans", m, src] => {
+            let (Some(mode), Some(src)) = (mode_of(m), unhex_str(src)) else { return bad() };
+            match token_spans(&src, mode) {
+                Ok(s) => s,
+                Err(e) => e,
+            }
+        }
+        ["rexpr", src, att] => {
+            let Some(src) = unhex_str(src) else { return bad() };
+            match token_spans(&src, Mode::Expression) {
+                Ok(s) if s == *att => {}
+                _ => return "stale-tokens".into(),
+            }
+            match parse_starts_at(&src, Mode::Expression, "<pvh>", TextSize::from(0)) {
+                Ok(ast::Mod::Expression(m)) => strip_ctx(astdump::dump(&m.body, false)),
+                Ok(_) => "(unexpected-mode)".into(),
                 Err(e) => err_line(&e),
             }
         }
